@@ -48,9 +48,9 @@ for mf in metas:
     out.append(f"| {n} | {m['needs_to_manifest']} | {'yes' if ownc else 'no'} | {' '.join(caught) or '**none**'} |")
 n_caught = sum(1 for mf in metas if json.load(open(mf))['caught_by'])
 out.append(f"\n{len(metas)} seeded changes, {n_caught} reported by at least one check, {n_own} by the check of their own property. "
-           "**Not detected: C12-B3** (a top-up that overflows u128 is stored as a second entry instead of aborting): it needs one asset of one record to exceed u128::MAX, i.e. a total supply above 2^128 "
-           "plus a trade that refills the depositor's wallet; the simulator keeps every supply below 2^128 on purpose (so that the unchanged code's overflow abort can never be mistaken for a refused good deposit), "
-           "so this change is outside its stated bounds — recorded as a miss, not argued away. "
+           "**Not detected: C12-B3** (a top-up that overflows u128 is stored as a second entry instead of aborting): it needs one asset of one record to exceed u128::MAX, so the market's own bank balance of that "
+           "denomination would have to exceed 2^128. The bank stub keeps balances in 128 bits (as cosmwasm's `Coin` does); an attempt with an environment `mint` op and a directed prelude showed the second deposit being refused "
+           "by the chain before the contract runs. The change is outside what the simulated chain can represent — recorded as a miss, not argued away. "
            "The exceptions: C05-B (receive hooks accept coins forwarded by a token-shaped contract) cannot manifest in C05's honest-token worlds by construction; "
            "it is reported by C19 (`coins_kept`) and C18 (`victim_altered … +coins`, a signature outside the known findings). C04-B (id re-use through the CW721 bucket path, then a purchase that overwrites the seller's bucket) "
            "was reported by C01 / C03 / C07 / C09 in this matrix; rule `C04.foreign_bucket_destroyed` was added afterwards (C18-B2 / C18-C2 exercise it).\n")
